@@ -74,20 +74,34 @@ ANY = ('any valid element',)      # seed expectation: must denote some element (
 
 
 class Deadline:
+    """CPU-time budget (ITIMER_PROF, so machine load does not matter) for code under test that may not return."""
+
     def __init__(self, seconds):
         self.seconds = seconds
 
     def _fire(self, *_):
-        raise TimeoutError(f'no result within {self.seconds} s')
+        raise TimeoutError(f'no result within {self.seconds} s of CPU time')
 
     def __enter__(self):
-        self.old = signal.signal(signal.SIGALRM, self._fire)
-        signal.alarm(self.seconds)
+        self.old = signal.signal(signal.SIGPROF, self._fire)
+        signal.setitimer(signal.ITIMER_PROF, self.seconds)
 
     def __exit__(self, *exc):
-        signal.alarm(0)
-        signal.signal(signal.SIGALRM, self.old)
+        signal.setitimer(signal.ITIMER_PROF, 0)
+        signal.signal(signal.SIGPROF, self.old)
         return False
+
+
+def guarded(cx, budget, fn, *args):
+    """Run a stage under a CPU budget; a real call that does not return is a violation at that call site."""
+    try:
+        with Deadline(budget):
+            return fn(*args)
+    except TimeoutError as e:
+        law, cls, desc = cx.cur
+        cx.viol(law, (cls + ':' if cls else '') + 'hangs', f'{D(desc)}: {e} for this group (stuck in or after this call)')
+        cx.flush()
+        return None
 
 
 def fe(x):
@@ -494,6 +508,7 @@ class Ctx:
         self.nt = 0
         self.opcache = {}
         self.skipped = 0
+        self.cur = ('stage', '', 'before the first real call')
 
     def viol(self, law, cls, what):
         if callable(what):
@@ -524,8 +539,11 @@ class Ctx:
         return r
 
     def call(self, law, cls, desc, fn, *args):
+        self.cur = (law, cls, desc)
         try:
             return True, fn(*args)
+        except TimeoutError:
+            raise
         except Exception as e:   # a real operation must not raise on valid elements
             self.viol(law, (cls + ':' if cls else '') + 'raises', f'{D(desc)} raised {type(e).__name__}: {e}')
             return False, None
@@ -854,7 +872,13 @@ def laws(cx, states, tier, repeat_ns=None):
 
 def guarded_laws(cx, states, tier):
     try:
-        laws(cx, states, tier)
+        with Deadline(400):
+            cx.cur = ('laws', '', 'law stage')
+            laws(cx, states, tier)
+    except TimeoutError as e:
+        law, cls, desc = cx.cur
+        cx.viol(law, (cls + ':' if cls else '') + 'hangs', f'{D(desc)}: {e} in the law stage (stuck in or after this call)')
+        cx.flush()
     except Exception as e:   # real code raising on valid elements outside the wrapped call sites
         import traceback
         tb = traceback.extract_tb(e.__traceback__)
@@ -887,7 +911,9 @@ def run_small(part, ad, job, tier, state_cap=60000):
     if len(ad.elems) <= 130 and not R.is_group(ref, ad.elems):
         part.note('harness_errors', [f'reference model of {ad.name} is not a group'])
         return
-    states = explore(cx, state_cap)
+    states = guarded(cx, 200, explore, cx, state_cap)
+    if states is None:
+        return
     part.note('groups', 1)
     part.note('groups_by_family', {ad.key: 1})
     part.note('elements_by_family', {ad.key: len(ad.elems)})
@@ -1086,7 +1112,9 @@ def job_builtin(part, job, fg):
                 f'order in the reference arithmetic')
         return
     part.note('standard_base_point_and_order', {str((gen, n) == ad.std): 1})
-    states = explore(cx, 200000)
+    states = guarded(cx, 400, explore, cx, 200000)
+    if states is None:
+        return
     part.note_max('max_states_one_group', len(states))
     part.outcomes.add((ad.key, len(states) > 50))
     if cx.failed:
@@ -1291,7 +1319,9 @@ def job_kummer(part, job, fg):
         cx = Ctx(part, ad, job)
         part.note('groups', 1)
         part.note('groups_by_family', {'HC-builtin': 1})
-        states = explore(cx, 100000)
+        states = guarded(cx, 400, explore, cx, 100000)
+        if states is None:
+            continue
         if cx.failed:
             part.note('groups_gated_after_first_stage', [ad.name])
             continue
@@ -1320,7 +1350,8 @@ def job_class_groups(part, job, fg):
                 f = R.transform_form(x, M)
                 cnt += 1
                 try:
-                    got = tuple(int(c) for c in ad.G(f).value)
+                    with Deadline(20):
+                        got = tuple(int(c) for c in ad.G(f).value)
                 except Exception as e:
                     got = f'{type(e).__name__}: {e}'
                 if got != x:
